@@ -4,42 +4,230 @@ replicat/backends/{local,s3c,b2}.py that the models `Store.lean`, `Paging.lean`,
 Only things the model *uses* are emitted as definitions; anything not found becomes `opaque` (the dependent bridge lemmas in
 Properties/C13.lean then stop compiling).  Shapes of whole functions are NOT asserted here (a harmless rewrite must not alarm):
 they are fingerprinted for the evidence and validated by the differential runs.
+
+Recognition is SEMANTIC: every backend method is executed symbolically (`tools/symflow.py`: names resolved through assignments,
+module / class constants and helper calls; conditions normalised; each effect with the guard under which it happens) and a fact is
+a query over the resulting events — see the docstrings of the queries here and in `tools/symfacts.py`.  Renamed locals / helpers,
+code moved into or out of helpers, swapped branches, early exits, `while True … break` ↔ `while flag`, hoisted constants,
+comprehensions ↔ loops and added logging do not change a fact; removing the structure does (→ `opaque` / `false`).
 """
-import ast
 import json
+
+import symflow as sf
+import symfacts
+from symflow import TRUE, FALSE, is_const, mentions, method_call, global_call, subterms
 
 HTTP_CODES = {'NOT_FOUND': 404, 'BAD_REQUEST': 400, 'FORBIDDEN': 403, 'UNAUTHORIZED': 401, 'TOO_MANY_REQUESTS': 429}
 
 
-def _lit(node):
-    try:
-        return ast.literal_eval(node)
-    except Exception:
+def _status_const(v):
+    """`httpx.codes.NOT_FOUND` / `404` / `http.HTTPStatus.NOT_FOUND` → int"""
+    if is_const(v, int):
+        return v[1]
+    if v[0] == 'global':
+        last = v[1].split('.')[-1]
+        if last in HTTP_CODES and ('codes' in v[1] or 'HTTPStatus' in v[1] or 'status' in v[1].lower()):
+            return HTTP_CODES[last]
+    return None
+
+
+def _status_literals(guard):
+    """the literals `<…>.status_code == <code>` of a guard → [(code, polarity)]"""
+    out = []
+    for atom, pol in guard:
+        if isinstance(atom, tuple) and atom and atom[0] == 'eq' and any(t[0] == 'attr' and t[2] in ('status_code', 'status') for t in subterms(atom[1])):
+            out.append((_status_const(atom[2]), pol))
+    return out
+
+
+def _own(e):
+    return not any(c[0] in ('inline', 'deferred') for c in e.ctx)
+
+
+def exists_false_status(interp):
+    """`exists`: the status code C such that the method answers False exactly on the path `caught HTTP error ∧ status == C`
+    (every `return False` of the method itself sits in an exception handler and is guarded by one positive status literal) → int"""
+    events, _ = interp.run('exists')
+    codes = set()
+    for e in events or []:
+        if e.kind == 'return' and _own(e) and e.value == FALSE:
+            if not e.inside('handler'):
+                return None
+            lits = _status_literals(e.guard)
+            if len(lits) != 1 or not lits[0][1] or lits[0][0] is None:
+                return None
+            codes.add(lits[0][0])
+    return codes.pop() if len(codes) == 1 else None
+
+
+def paging_loop(interp, events):
+    """the first outermost `while` loop in whose body names are yielded — by the method itself, or by a generator helper of the
+    class that the method iterates (its events are inlined where it is iterated)"""
+    for lid in sorted(interp.loops):
+        loop = interp.loops[lid]
+        if loop.kind != 'while':
+            continue
+        ys = [e for e in events if e.kind == 'yield' and e.inside('while', lid)]
+        if ys and not any(c[0] in ('while', 'for') for c in ys[0].ctx[:[i for i, c in enumerate(ys[0].ctx) if c[:2] == ('while', lid)][0]]):
+            return loop
+    return None
+
+
+def b2_stops_on_null_next(interp):
+    """B2 `list_files`: after a page, ANOTHER page is requested iff the `nextFileName` of THIS page's decoded response is not None
+    (and the first page is requested unconditionally).  `while True … if next is None: break`, `while has_more` with
+    `has_more = next is not None`, an early `return`, swapped branches … all give the same continue-condition.
+    → True; a different condition on nextFileName → False; no such loop → None"""
+    events, _ = interp.run('list_files')
+    if not events:
+        return None
+    loop = paging_loop(interp, events)
+    if loop is None:
+        return None
+    first = sf.first_iteration_condition(loop)
+    cc = sf.continue_condition(interp, loop, events)
+    if cc is None:
         return None
 
+    def next_name(t):
+        if t[0] == 'sub' and t[2] == ('const', 'nextFileName'):
+            return t[1]
+        m = method_call(t, ('get',))
+        if m is not None and m[2] == (('const', 'nextFileName'),):
+            return m[0]
+        return None
+    about_next = any(next_name(t) is not None for it in cc for t in subterms(it[0] if not isinstance(it[0][1], frozenset) else tuple(x[0] for x in it[0][1])))
+    if len(cc) == 1:
+        atom, pol = next(iter(cc))
+        if not pol and atom[0] == 'isnone':
+            src = next_name(atom[1])
+            # the response of THIS iteration: nothing carried over from the previous one
+            if src is not None and not any(t[0] == 'carried' for t in subterms(src)) and first == TRUE \
+                    and any(e.kind == 'call' and e.inside('while', loop.id) and mentions(src, e.value) for e in events):
+                return True
+    return False if about_next else None
 
-def _status_const(node, unparse):
-    """`httpx.codes.NOT_FOUND` / `404` → int"""
-    v = _lit(node)
-    if isinstance(v, int):
-        return v
-    s = unparse(node)
-    for k, c in HTTP_CODES.items():
-        if s.endswith('codes.' + k):
-            return c
-    return None
+
+def s3_listing(interp):
+    """S3 `list_files`, read off the events of the paging loop:
+      key tag    K — the method yields `<element>.text` under the guard `tag(<element>) == K`;
+      token tag  T — a variable carried to the next request is set to `<element>.text` under `tag == T`;
+      truncation   — the loop test is a carried flag; it is cleared (set so that the test fails) under `tag == X ∧ text == Y`
+                     (or assigned `text != Y` under `tag == X`);
+      starts       — the loop test holds for the initial values.
+    → dict(trunc, stop, token, key, starts)"""
+    out = dict(trunc=None, stop=None, token=None, key=None, starts=None)
+    events, _ = interp.run('list_files')
+    if not events:
+        return out
+    loop = paging_loop(interp, events)
+    if loop is None:
+        return out
+    first = sf.first_iteration_condition(loop)
+    if is_const(first):
+        out['starts'] = bool(first[1])
+    inside = [e for e in events if e.inside('while', loop.id)]
+
+    def tag_literal(guard, elem_text):
+        """K of the positive literal `<…elem.tag…> == K` of the guard, for the element whose `.text` is elem_text"""
+        if not (elem_text[0] == 'attr' and elem_text[2] == 'text'):
+            return None
+        el = elem_text[1]
+        ks = {atom[2][1] for atom, pol in guard if pol and isinstance(atom, tuple) and atom and atom[0] == 'eq' and is_const(atom[2], str)
+              and mentions(atom[1], ('attr', el, 'tag'))}
+        return ks.pop() if len(ks) == 1 else None
+    keys = {tag_literal(e.guard, e.value) for e in inside if e.kind == 'yield'}
+    if len(keys) == 1:
+        out['key'] = keys.pop()
+    flag_pol = {}
+    for atom, pol in sf.literals(loop.test, True) if loop.test is not None else []:
+        if isinstance(atom, tuple) and atom[0] == 'carried':
+            flag_pol[atom[2]] = pol
+    used = lambda name: any(mentions(x, ('carried', loop.id, name)) for e in events if e.inside('while', loop.id)  # noqa: E731
+                            for x in ((e.value, e.extra) if isinstance(e.extra, tuple) else (e.value,)))
+    tokens, truncs = set(), set()
+    for e in inside:
+        if e.kind != 'assign' or e.extra not in loop.init:
+            continue
+        if e.extra in flag_pol:
+            want_false = flag_pol[e.extra]          # `while flag` is left by flag = False, `while not done` by done = True
+            if is_const(e.value, bool) and e.value[1] == want_false:
+                pass                                 # re-arming the flag: not a stop
+            elif is_const(e.value, bool):
+                texts = [(atom[1], atom[2][1]) for atom, pol in e.guard if pol and isinstance(atom, tuple) and atom and atom[0] == 'eq'
+                         and is_const(atom[2], str) and atom[1][0] == 'attr' and atom[1][2] == 'text']
+                if len(texts) == 1:
+                    truncs.add((tag_literal(e.guard, texts[0][0]), texts[0][1]))
+                else:
+                    truncs.add((None, None))
+            else:
+                v = e.value if want_false else sf.mk_not(e.value)
+                if v[0] == 'not' and v[1][0] == 'eq' and is_const(v[1][2], str) and v[1][1][0] == 'attr' and v[1][1][2] == 'text':
+                    truncs.add((tag_literal(e.guard, v[1][1]), v[1][2][1]))
+                else:
+                    truncs.add((None, None))
+        elif e.value[0] == 'attr' and e.value[2] == 'text' and used(e.extra):
+            tokens.add(tag_literal(e.guard, e.value))
+    if len(tokens) == 1:
+        out['token'] = tokens.pop()
+    if len(truncs) == 1:
+        out['trunc'], out['stop'] = truncs.pop()
+    return out
 
 
-def _status_compare(fn, unparse):
-    """first `<x>.status_code == <const>` inside fn → int"""
-    for node in ast.walk(fn):
-        if isinstance(node, ast.Compare) and len(node.ops) == 1 and isinstance(node.ops[0], ast.Eq) and unparse(node.left).endswith('status_code'):
-            return _status_const(node.comparators[0], unparse)
-    return None
+def b2_tolerated_hide(interp):
+    """B2 `delete`: the method returns normally from the handler of the HTTP error exactly under
+    `status == S ∧ decoded error code ∈ CODES` → (sorted codes, S)"""
+    events, _ = interp.run('delete')
+    found = set()
+    for e in events or []:
+        if e.kind == 'return' and _own(e) and e.inside('handler'):
+            st = [c for c, pol in _status_literals(e.guard) if pol]
+            codes = None
+            for atom, pol in e.guard:
+                if not pol or not isinstance(atom, tuple) or not atom:
+                    continue
+                if atom[0] == 'in' and any(t == ('const', 'code') for t in subterms(atom[1])):
+                    c = atom[2]
+                    vals = c[1] if c[0] in ('tuple', 'list') else (tuple(c[1]) if c[0] == 'set' else (tuple(('const', x) for x in c[1]) if is_const(c, (tuple, frozenset)) else ()))
+                    if vals and all(is_const(x, str) for x in vals):
+                        codes = tuple(sorted(x[1] for x in vals))
+                elif atom[0] == 'or' and isinstance(atom[1], frozenset):
+                    alts = [a for a, p in atom[1] if p and a[0] == 'eq' and is_const(a[2], str) and any(t == ('const', 'code') for t in subterms(a[1]))]
+                    if len(alts) == len(atom[1]):
+                        codes = tuple(sorted(a[2][1] for a in alts))
+                elif atom[0] == 'eq' and is_const(atom[2], str) and any(t == ('const', 'code') for t in subterms(atom[1])):
+                    codes = (atom[2][1],)
+            found.add((codes, st[0] if len(st) == 1 else None))
+    if len(found) == 1:
+        return next(iter(found))
+    return None, None
+
+
+def b2_upload_name_quoted(interp):
+    """B2 `upload`: the value sent as `x-bz-file-name` is `quote(<name parameter>)` (no `safe=` override) → True / False / None"""
+    events, _ = interp.run('upload')
+    vals = []
+    for e in events or []:
+        terms = [e.value] + ([e.extra] if isinstance(e.extra, tuple) else [])
+        if e.kind == 'store' and e.value[0] == 'sub' and e.value[2] == ('const', 'x-bz-file-name'):
+            vals.append(e.extra)
+        if e.kind == 'call':
+            for t in terms:
+                for d in subterms(t):
+                    if d[0] == 'dict':
+                        vals.extend(v for k, v in d[1] if k == ('const', 'x-bz-file-name'))
+    if not vals:
+        return None
+    ok = True
+    for v in vals:
+        g = global_call(v, ('urllib.parse.quote',))
+        ok = ok and g is not None and g[1] == (('arg', 0),) and not g[2]
+    return ok
 
 
 def section(ctx):
-    emit, notes, unparse = ctx.emit, ctx.notes, ctx.unparse
+    emit, notes = ctx.emit, ctx.notes
 
     def s(x):
         return json.dumps(x, ensure_ascii=False)
@@ -51,161 +239,79 @@ def section(ctx):
         else:
             emit(f'def {name} : {typ} := {render(value)}')
 
+    def boolean(b):
+        return 'true' if b else 'false'
+
+    def guarded(what, fn, default=None):
+        """a query that fails on an unforeseen shape degrades to "not recognised", never to a crash of the whole section"""
+        try:
+            return fn()
+        except Exception as e:  # noqa: BLE001
+            notes['store:' + what] = f'query failed: {e!r}'
+            return default
+
     # ------------------------------------------------------------------ local.py
+    import ast
     tree = ast.parse((ctx.REPO / 'replicat' / 'backends' / 'local.py').read_text())
     for m in ('exists', '_destination_temp', 'upload', 'upload_stream', 'download', 'download_stream', 'list_files', 'delete'):
         ctx.fp('backends.local.' + m, ctx.find_func(tree, 'Local', m))
-    lf = ctx.find_func(tree, 'Local', 'list_files')
-    exclude = None
-    slice_from = None
-    path_len_src = None
-    path_len_var = 'path_length'
-    if lf is not None:
-        for node in ast.walk(lf):
-            # the variable that holds len(str(self.path)) may be renamed by a refactoring
-            if isinstance(node, ast.Assign) and len(node.targets) == 1 and isinstance(node.targets[0], ast.Name) \
-                    and unparse(node.value) == 'len(str(self.path))':
-                path_len_var = node.targets[0].id
-        for node in ast.walk(lf):
-            if isinstance(node, ast.If) and isinstance(node.test, ast.Call) and unparse(node.test.func).endswith('.endswith') \
-                    and node.body and isinstance(node.body[0], ast.Continue):
-                v = _lit(node.test.args[0]) if node.test.args else None
-                if isinstance(v, str):
-                    exclude = v
-            if isinstance(node, ast.Yield) and isinstance(node.value, ast.Subscript) and isinstance(node.value.slice, ast.Slice) \
-                    and node.value.slice.lower is not None and node.value.slice.upper is None and node.value.slice.step is None:
-                try:
-                    slice_from = ctx.translate(unparse(node.value.slice.lower), {path_len_var: ('pathLength', 'nat')}, 'nat')
-                except ctx.Untranslatable:
-                    slice_from = None
-            if isinstance(node, ast.Assign) and unparse(node.targets[0]) == path_len_var:
-                path_len_src = unparse(node.value)
+    lf = guarded('local', lambda: symfacts.local_facts(ctx.REPO), {}) or {}
+    listing = lf.get('listing') or {}
     emit('/-! ### local backend -/')
-    opt('localListExcludeSuffix', 'String', exclude, s)
+    opt('localListExcludeSuffix', 'String', listing.get('exclude'), s)
+    slice_from = None
+    if listing.get('slice') is not None:
+        try:
+            slice_from = ctx.translate(listing['slice'][0], {'pathLength': ('pathLength', 'nat')}, 'nat')
+        except ctx.Untranslatable:
+            slice_from = None
     if slice_from is None:
-        notes['store:localSliceFrom'] = 'not recognised'
+        notes['store:localSliceFrom'] = 'not recognised' + (': ' + listing.get('why', '') if listing.get('why') else '')
         emit('opaque localSliceFrom : Nat → Nat')
     else:
         emit(f'def localSliceFrom (pathLength : Nat) : Nat := {slice_from}')
-    emit(f'def localPathLengthIsLenOfStrOfRoot : Bool := {"true" if path_len_src == "len(str(self.path))" else "false"}')
-    init = ctx.find_func(tree, 'Local', '__init__')
-    made_abs = False
-    if init is not None:
-        for node in ast.walk(init):
-            if isinstance(node, ast.Assign) and unparse(node.targets[0]) == 'self.path':
-                v = unparse(node.value)
-                made_abs = v.endswith('.absolute()') or v.endswith('.resolve()') or 'abspath(' in v
-    emit(f'def localRootMadeAbsolute : Bool := {"true" if made_abs else "false"}')
-    dt = ctx.find_func(tree, 'Local', '_destination_temp')
-    temp_suffix = None
-    if dt is not None:
-        for node in ast.walk(dt):
-            if isinstance(node, ast.Call) and unparse(node.func).endswith('NamedTemporaryFile'):
-                for k in node.keywords:
-                    if k.arg == 'suffix':
-                        temp_suffix = _lit(k.value)
-    opt('localTempSuffix', 'String', temp_suffix if isinstance(temp_suffix, str) else None, s)
-    de = ctx.find_func(tree, 'Local', 'delete')
-    missing_ok = None
-    if de is not None:
-        for node in ast.walk(de):
-            if isinstance(node, ast.Call) and unparse(node.func).endswith('.unlink'):
-                missing_ok = False
-                for k in node.keywords:
-                    if k.arg == 'missing_ok':
-                        missing_ok = bool(_lit(k.value))
-    opt('localUnlinkMissingOk', 'Bool', missing_ok, lambda b: 'true' if b else 'false')
+    emit(f'def localPathLengthIsLenOfStrOfRoot : Bool := {boolean(slice_from is not None and listing["slice"][1])}')
+    emit(f'def localRootMadeAbsolute : Bool := {boolean(lf.get("root_abs"))}')
+    up, ups = lf.get('up') or {}, lf.get('ups') or {}
+    temp_suffix = up.get('suffix') if up.get('suffix') is not None and up.get('suffix') == ups.get('suffix') else None
+    opt('localTempSuffix', 'String', temp_suffix, s)
+    opt('localUnlinkMissingOk', 'Bool', lf.get('missing_ok'), boolean)
 
     # ------------------------------------------------------------------ s3c.py
-    tree = ast.parse((ctx.REPO / 'replicat' / 'backends' / 's3c.py').read_text())
+    src = (ctx.REPO / 'replicat' / 'backends' / 's3c.py').read_text()
+    tree = ast.parse(src)
     for m in ('exists', '_put_object', 'upload', '_put_object_stream', 'upload_stream', 'download', 'download_stream', '_list_objects', 'list_files', 'delete'):
         ctx.fp('backends.s3c.' + m, ctx.find_func(tree, 'S3Compatible', m))
-    lf = ctx.find_func(tree, 'S3Compatible', 'list_files')
-    tag_trunc = stop_text = tag_token = tag_key = None
-    init_trunc = None
-    if lf is not None:
-        loop_var = None
-        for node in ast.walk(lf):
-            if isinstance(node, ast.While) and isinstance(node.test, ast.Name):
-                loop_var = node.test.id
-        for node in ast.walk(lf):
-            if isinstance(node, ast.Assign) and len(node.targets) == 1 and isinstance(node.targets[0], ast.Name) \
-                    and node.targets[0].id == loop_var and init_trunc is None:
-                init_trunc = _lit(node.value)
-
-        def is_text(n):
-            return isinstance(n, ast.Attribute) and n.attr == 'text'
-
-        def eq_const(c):
-            """`<name> == <str const>` → (name, const)"""
-            if isinstance(c, ast.Compare) and len(c.ops) == 1 and isinstance(c.ops[0], ast.Eq) and isinstance(_lit(c.comparators[0]), str):
-                return c.left, _lit(c.comparators[0])
-            return None, None
-        for node in ast.walk(lf):
-            if isinstance(node, ast.If):
-                cur = node
-                while isinstance(cur, ast.If):
-                    t_, body = cur.test, cur.body
-                    if isinstance(t_, ast.BoolOp) and isinstance(t_.op, ast.And) and len(t_.values) == 2 and len(body) == 1:
-                        (l0, c0), (l1, c1) = eq_const(t_.values[0]), eq_const(t_.values[1])
-                        if l0 is not None and l1 is not None and isinstance(l0, ast.Name) and is_text(l1) \
-                                and isinstance(body[0], ast.Assign) and unparse(body[0].targets[0]) == loop_var and _lit(body[0].value) is False:
-                            tag_trunc, stop_text = c0, c1
-                    else:
-                        l0, c0 = eq_const(t_)
-                        if l0 is not None and isinstance(l0, ast.Name) and len(body) == 1:
-                            b = body[0]
-                            if isinstance(b, ast.Assign) and isinstance(b.targets[0], ast.Name) and is_text(b.value):
-                                tag_token = c0
-                            elif isinstance(b, ast.Expr) and isinstance(b.value, ast.Yield) and is_text(b.value.value):
-                                tag_key = c0
-                    cur = cur.orelse[0] if len(cur.orelse) == 1 else None
+    mod = sf.Module(src)
+    listing3 = dict(trunc=None, stop=None, token=None, key=None, starts=None)
+    s3_exists = None
+    if 'S3Compatible' in mod.classes:
+        listing3 = guarded('s3 list_files', lambda: s3_listing(sf.Interp(mod, 'S3Compatible')), listing3)
+        s3_exists = guarded('s3 exists', lambda: exists_false_status(sf.Interp(mod, 'S3Compatible')))
     emit('/-! ### S3-compatible backend -/')
-    opt('s3TagTruncated', 'String', tag_trunc, s)
-    opt('s3StopText', 'String', stop_text, s)
-    opt('s3TagToken', 'String', tag_token, s)
-    opt('s3TagKey', 'String', tag_key, s)
-    opt('s3LoopStartsTruncated', 'Bool', init_trunc if isinstance(init_trunc, bool) else None, lambda b: 'true' if b else 'false')
-    ex = ctx.find_func(tree, 'S3Compatible', 'exists')
-    opt('s3ExistsFalseStatus', 'Nat', _status_compare(ex, unparse) if ex is not None else None, str)
+    opt('s3TagTruncated', 'String', listing3['trunc'], s)
+    opt('s3StopText', 'String', listing3['stop'], s)
+    opt('s3TagToken', 'String', listing3['token'], s)
+    opt('s3TagKey', 'String', listing3['key'], s)
+    opt('s3LoopStartsTruncated', 'Bool', listing3['starts'], boolean)
+    opt('s3ExistsFalseStatus', 'Nat', s3_exists, str)
 
     # ------------------------------------------------------------------ b2.py
-    tree = ast.parse((ctx.REPO / 'replicat' / 'backends' / 'b2.py').read_text())
+    src = (ctx.REPO / 'replicat' / 'backends' / 'b2.py').read_text()
+    tree = ast.parse(src)
     for m in ('authenticate', '_get_bucket', 'exists', '_get_upload_url_token', 'upload', 'upload_stream', 'download', 'download_stream',
               '_list_file_names', 'list_files', 'delete'):
         ctx.fp('backends.b2.' + m, ctx.find_func(tree, 'B2', m))
-    de = ctx.find_func(tree, 'B2', 'delete')
-    codes = None
-    status = None
-    if de is not None:
-        status = _status_compare(de, unparse)
-        for node in ast.walk(de):
-            if isinstance(node, ast.Compare) and len(node.ops) == 1 and isinstance(node.ops[0], ast.In) and "get('code')" in unparse(node.left):
-                v = _lit(node.comparators[0])
-                if isinstance(v, (tuple, list, set)) and all(isinstance(x, str) for x in v):
-                    codes = sorted(v)
+    mod = sf.Module(src)
+    codes = status = b2_exists = stops_on_null = quoted = None
+    if 'B2' in mod.classes:
+        codes, status = guarded('b2 delete', lambda: b2_tolerated_hide(sf.Interp(mod, 'B2')), (None, None))
+        b2_exists = guarded('b2 exists', lambda: exists_false_status(sf.Interp(mod, 'B2')))
+        stops_on_null = guarded('b2 list_files', lambda: b2_stops_on_null_next(sf.Interp(mod, 'B2')))
+        quoted = guarded('b2 upload', lambda: b2_upload_name_quoted(sf.Interp(mod, 'B2')))
     emit('/-! ### B2 backend -/')
-    opt('b2ToleratedHideCodes', 'List String', codes, lambda v: '[' + ', '.join(s(x) for x in v) + ']')
+    opt('b2ToleratedHideCodes', 'List String', list(codes) if codes is not None else None, lambda v: '[' + ', '.join(s(x) for x in v) + ']')
     opt('b2ToleratedHideStatus', 'Nat', status, str)
-    ex = ctx.find_func(tree, 'B2', 'exists')
-    opt('b2ExistsFalseStatus', 'Nat', _status_compare(ex, unparse) if ex is not None else None, str)
-    lf = ctx.find_func(tree, 'B2', 'list_files')
-    stops_on_null = None
-    if lf is not None:
-        for node in ast.walk(lf):
-            if isinstance(node, ast.If) and node.body and isinstance(node.body[0], ast.Break):
-                t = unparse(node.test)
-                if t == "decoded['nextFileName'] is None":
-                    stops_on_null = True
-                elif 'nextFileName' in t:
-                    stops_on_null = False
-    opt('b2LoopStopsOnNullNext', 'Bool', stops_on_null, lambda b: 'true' if b else 'false')
-    quoted = None
-    up = ctx.find_func(tree, 'B2', 'upload')
-    if up is not None:
-        for node in ast.walk(up):
-            if isinstance(node, ast.Dict):
-                for k, v in zip(node.keys, node.values):
-                    if _lit(k) == 'x-bz-file-name':
-                        quoted = unparse(v) == 'quote(name)'
-    opt('b2UploadNameQuoted', 'Bool', quoted, lambda b: 'true' if b else 'false')
+    opt('b2ExistsFalseStatus', 'Nat', b2_exists, str)
+    opt('b2LoopStopsOnNullNext', 'Bool', stops_on_null, boolean)
+    opt('b2UploadNameQuoted', 'Bool', quoted, boolean)
